@@ -591,6 +591,18 @@ def gen_hostile_all(seed, count, full=False):
         rng.shuffle(rest)
         cases = keep + rest[:max(0, count - len(keep))]
     out = []
+    # packets around the client's receive limit (its CONNECT Maximum Packet Size, 65536 when it announces none):
+    # up to the limit they are ordinary traffic, above it the client must give the connection up and recover
+    for lim in (None, 100, 130, 2000, 16500, 20000):
+        L = lim or 65536
+        for total in (L - 1, L, L + 1, L + 2, L + 3, L + 4, L + 64):
+            for ch in ((0, 7) if L > 3000 else (0, 1, 3)):
+                kw = dict(cprops=[[39, lim]]) if lim else {}
+                steps = [dict(op="cfg", hosts=2, ka=0, tseed=11, **kw), dict(op="run", id=1), dict(op="recv", id=2, loop=1),
+                         dict(op="hold"), dict(op="pub", id=10, qos=1, msg="m10")]
+                if ch: steps.append(dict(op="set", chunk=ch))
+                steps += [dict(op="bbytes", pub_total=total), dict(op="advance", ms=1), dict(op="set", chunk=0), dict(op="unhold"), dict(op="quiesce", ms=200000)]
+                out.append(json.dumps(dict(name="hostile-es-size%d-t%d-c%d" % (L, total, ch), steps=steps), separators=(",", ":")))
     for (name, mn, mb, ch) in cases:
         hx = mb.hex()
         steps = [dict(op="cfg", hosts=2, ka=0, tseed=11)]
